@@ -37,6 +37,10 @@ def run(db, rep, tier):
     r3(db, rep)
     r4(db, rep)
     r5(db, rep)
+    rep.rule("R6-section-pairs", "a section's start index is always relocated together with that section's own record count", 5)
+    rep.rule("R7-binary-safe", "record data leaves the parser with an explicit length; only NUL-terminated text goes through a C string", 1)
+    r6(db, rep)
+    r7(db, rep)
     rep.explanation = ("Decides the structural clauses of C10: memory safety of all raw DNS walkers and getters under a "
                        "class invariant that is itself proved (constructors, add_query) or carried by shape rules (add_record "
                        "family); header-count / insertion pairing; section shifting. Name-length limits, pointer rewriting "
@@ -302,3 +306,104 @@ def r5(db, rep):
     advs = [None] * nbr
     if ok:
         rep.ok("R5-lockstep", "update_records", facts.loc(f), "%d extra advance(s) inside record data, each paired with an equal length decrease" % len(advs))
+
+
+def r6(db, rep):
+    """update_records(X_idx_, X_count(), ...) and make_pair(&X_idx_, X_count()): the walker rewrites compression pointers of
+    exactly `count` records starting at `idx`; both must name the same section"""
+    n = 0
+    for fid, f in sorted(db.functions.items()):
+        if f.get("rec") != DNS or not f.get("body"):
+            continue
+        for x in facts.fn_nodes(f):
+            a = b = None
+            if x["k"] == "CXXMemberCallExpr" and x.get("cname") == "update_records" and len(x["c"]) >= 3:
+                a, b = x["c"][1], x["c"][2]
+            if x["k"] == "CallExpr" and x.get("cname") == "make_pair" and len(x["c"]) == 3:
+                a, b = x["c"][1], x["c"][2]
+            if a is None:
+                continue
+            ta, tb = facts.expr_str(a).replace("this->", ""), facts.expr_str(b).replace("this->", "")
+            import re
+            ma = re.search(r"(\w+)_idx_", ta)
+            mb = re.search(r"(\w+)_count\(\)", tb)
+            if not ma or not mb:
+                continue        # indirect form (elements of the `sections` vector): built by the make_pair sites
+            n += 1
+            key = "%s:%s#%d" % (f["qual"].split("::")[-1], x.get("cname"), n)
+            if ma.group(1) == mb.group(1):
+                rep.ok("R6-section-pairs", key, facts.loc(f, x), "%s_idx_ with %s_count()" % (ma.group(1), mb.group(1)))
+            else:
+                rep.violation("R6-section-pairs", key, facts.loc(f, x),
+                              "the %s section's start is relocated with the record count of the %s section: compression pointers in some %s records "
+                              "are left pointing at the old offsets (or bytes beyond the section are rewritten)" % (ma.group(1), mb.group(1), ma.group(1)))
+    if n < 5:
+        rep.analysis_broken("only %d (index, count) section pairs found" % n)
+
+
+TEXT_PRODUCERS = ("compose_name", "inline_convert_v4", "inline_convert_v6", "inet_ntop", "snprintf", "sprintf", "strcpy", "strncpy")
+
+
+def r7(db, rep):
+    """convert_records keeps two kinds of record data: text it formatted itself into a char buffer (used as a C string) and
+    raw bytes (kept in a std::string with explicit length).  A char buffer that is later read as a C string may only be
+    written by the text producers; copying message bytes into it truncates the data at the first zero octet."""
+    fs = db.fns_named(DNS + "::convert_records")
+    if not fs:
+        rep.analysis_broken("DNS::convert_records vanished")
+        return
+    f = fs[0]
+    idx, par = facts.index_fn(f)
+    arrays = {}
+    for x in facts.fn_nodes(f):
+        if x["k"] == "VarDecl":
+            t = facts.tyi(f, x.get("t")) or {}
+            if t.get("k") == "arr" and (t.get("to") or {}).get("k") == "int" and (t.get("to") or {}).get("w") == 8:
+                arrays[x["var"]] = x
+    # arrays that reach a std::string through const char* (decay inside a conditional / constructor argument)
+    cstr = set()
+    for x in facts.fn_nodes(f):
+        if x["k"] == "DeclRefExpr" and x.get("var") in arrays:
+            p = par.get(x["id"])
+            while p is not None and p["k"] in ("ImplicitCastExpr", "ParenExpr"):
+                p = par.get(p["id"])
+            if p is not None and p["k"] in ("ConditionalOperator", "CXXConstructExpr", "CXXTemporaryObjectExpr", "CXXFunctionalCastExpr") and \
+                    "basic_string" in ((facts.ty(f, p) or {}).get("s") or "") + ((facts.ty(f, p) or {}).get("name") or ""):
+                cstr.add(x["var"])
+            if p is not None and p["k"] == "CallExpr" and p.get("cname") in ("encode_domain_name",):
+                cstr.add(x["var"])
+    if not cstr:
+        rep.analysis_broken("convert_records: no char buffer converted to a string found")
+        return
+    for var in sorted(cstr):
+        key = "convert_records:%s" % var.split("#")[0]
+        bad = None
+        n_w = 0
+        for x in facts.fn_nodes(f):
+            if x["k"] == "DeclRefExpr" and x.get("var") == var:
+                p = par.get(x["id"])
+                while p is not None and p["k"] in ("ImplicitCastExpr", "ParenExpr"):
+                    p = par.get(p["id"])
+                if p is None:
+                    continue
+                if p["k"] in ("CallExpr", "CXXMemberCallExpr"):
+                    cn = p.get("cname") or ""
+                    args = p["c"][1:]
+                    pos = [i for i, a in enumerate(args) if any(y is x for y in facts.walk(a))]
+                    if cn in TEXT_PRODUCERS:
+                        n_w += 1
+                        continue
+                    if cn in ("memcpy", "memmove", "memset", "read", "copy") and pos and pos[0] == 0:
+                        bad = (p, "%s copies raw message bytes into `%s`" % (cn, var.split("#")[0]))
+                        break
+                if p["k"] == "ArraySubscriptExpr":
+                    pp = par.get(p["id"])
+                    if pp is not None and pp["k"] == "BinaryOperator" and pp.get("op") == "=" and pp["c"][0] is p:
+                        # storing a terminator is fine only together with a text producer; alone it signals hand-made content
+                        continue
+        if bad:
+            rep.violation("R7-binary-safe", key, facts.loc(f, bad[0]),
+                          "%s, which is later handed over as a C string: record data containing a zero octet (empty TXT strings, SRV priority 0, "
+                          "binary RDATA) is cut there" % bad[1])
+        else:
+            rep.ok("R7-binary-safe", key, facts.loc(f), "written only by %d text-producing call(s)" % n_w)
